@@ -750,7 +750,7 @@ def run(ctx):
     binary = build_test_binary(ctx)
     tick(ctx, 'test binary built')
     # the cache as shared state: cache-level histories against Model/LspCache.v, beside the server histories
-    cache = CacheCheck(ctx, race=False).start()
+    cache = CacheCheck(ctx, race=not ctx.quick()).start()       # race detector in the thorough tier
     if ctx.replay:
         rp = json.load(open(ctx.replay))
         jobs = [dict(rp['case'], id=0, tag='replay')] if 'case' in rp else []
